@@ -66,8 +66,22 @@ def _run_driver(repo, which, case=None, budget=50, timeout=1500):
         shutil.rmtree(d, ignore_errors=True)
 
 
-def find_failing_input(prop, ob, reg, repo, kout, verus_outs):
-    """Return a dict describing a concrete failing input on the real code, or None."""
+def find_failing_input(prop, ob, reg, repo, kout, verus_outs, extra=None):
+    """Return a dict describing a concrete failing input on the real code, or None.  `extra` (a dict) receives
+    material worth keeping in the replay file even when nothing was reproduced (the verifier's counterexample)."""
+    extra = extra if extra is not None else {}
+    if ob.get('backend', '').startswith('kani') and ob.get('playback', True) and ob.get('harness_id'):
+        import playback
+        tag = re.sub(r'[^A-Za-z0-9]+', '_', ob['harness_id'])[-60:]
+        cex = playback.extract_counterexample(repo, ob['harness_id'], tag)
+        if cex:
+            extra['verifier_counterexample'] = cex
+            ok, text = playback.run_native(repo, ob['harness_id'], cex, tag)
+            extra['native_playback'] = text
+            if ok:
+                return {'driver': 'kani-playback', 'harness_id': ob['harness_id'], 'test_name': cex['test_name'],
+                        'test_code': cex['test_code'], 'check': cex['check'], 'observed': text,
+                        'how_to_replay': './check %s --replay <this file>' % prop}
     which = reg.get('search')
     if isinstance(which, dict):
         # per-obligation-prefix choice
@@ -101,6 +115,16 @@ def replay(prop, path, repo):
     if not fi:
         print('no concrete failing input was found for this obligation (no-failing-input-found); the verifier output above is the evidence')
         return 0
+    if fi.get('driver') == 'kani-playback':
+        import playback
+        tag = re.sub(r'[^A-Za-z0-9]+', '_', fi['harness_id'])[-60:]
+        ok, text = playback.run_native(repo, fi['harness_id'], fi, 'replay-' + tag)
+        print(fi['test_code'])
+        print(text)
+        if ok is None:
+            return 2
+        print('VERIF-REPLAY-FAIL' if ok else 'VERIF-REPLAY-PASS')
+        return 1 if ok else 0
     out, err = _run_driver(repo, fi['driver'], fi['case'], 5)
     if out is None:
         print('replay could not run: %s' % err)
